@@ -4,6 +4,7 @@
 cd /verif
 for d in seeded/*${1:-}*/; do
   id=$(basename $d); P=$(python3 -c "import json;print(json.load(open('$d/meta.json'))['breaks_property'])")
+  if grep -q '"neutralised_by"' $d/meta.json; then echo "$id $P neutralised (skipped)"; continue; fi
   line=$(tools/seeded-check.sh $P $d/patch.diff 2>&1 | tail -1)
   rc=$(echo "$line" | sed -n 's/.*rc=\([0-9]*\).*/\1/p'); oracle=$(echo "$line" | sed -n 's/.*violated oracle: \([^ ]*\).*/\1/p')
   case "$rc" in 1) res=caught;; 0) res=missed;; *) res="trouble";; esac
